@@ -94,9 +94,11 @@ ReadCtx(n) ==       \* context.get(n) in the body
   /\ InBody /\ Step("read_ctx", n, Val(heap[dataId], n)) /\ UNCHANGED <<heap, locals, handed>>
 ReadSelfDef(n) ==   \* a def reached through self. reads n: no body locals
   /\ InBody /\ Step("read_selfdef", n, Val(heap[dataId], n)) /\ UNCHANGED <<heap, locals, handed>>
-ReadByName(n) ==    \* a def called by name from the body reads n
+ReadByName(n, via) ==   \* a def called by name from the body reads n; the call stands in the body text or,
+                        \* being the def's only reference, inside the body of a <%call> tag: same snapshot
   /\ InBody /\ heap' = Append(heap, ChildData)
-  /\ Step("read_byname", n, Val(ChildData, n)) /\ UNCHANGED <<locals, handed>>
+  /\ Step(IF via = "text" THEN "read_byname" ELSE "read_byname_callbody", n, Val(ChildData, n))
+  /\ UNCHANGED <<locals, handed>>
 DefAssign(n, how) ==  \* a def assigns n (its own local) and shows it; nobody else is affected
   /\ InBody /\ heap' = (IF how = "byname" THEN Append(heap, ChildData) ELSE heap)
   /\ Step("defassign_" \o how, n, "D") /\ UNCHANGED <<locals, handed>>
@@ -120,7 +122,8 @@ Report ==
   /\ PrintT(ToJson([entry |-> entry, enable_loop |-> enableLoop, args |-> args, decl |-> decl,
                     outcome |-> outcome, hist |-> hist]))
   /\ UNCHANGED <<cfgvars, heap, dataId, kwId, locals, handed, hist, outcome>>
-BodyStep == \/ \E n \in DataNames : Assign(n) \/ ReadCtx(n) \/ ReadSelfDef(n) \/ ReadByName(n)
+BodyStep == \/ \E n \in DataNames : Assign(n) \/ ReadCtx(n) \/ ReadSelfDef(n)
+            \/ \E n \in DataNames, via \in {"text", "callbody"} : ReadByName(n, via)
             \/ \E n \in DataNames, how \in {"self", "byname"} : DefAssign(n, how)
             \/ \E w \in {"body", "selfdef", "bynamedef"} : KwRead(w)
             \/ \E n \in DataNames \cup {"new"} : KwMutate(n)
